@@ -3,30 +3,41 @@ import os, re, subprocess
 from props.bngen import hx
 
 TRUSTED = [
-    "class A (formula mirrored in Model/Fpx.lean and proved equal to the product / square / inverse of the quotient ring over an abstract "
-    "commutative ring, Lemmas/Fpx.lean): fp2 mul/sqr (basic and integ shapes, the qnr loops), fp2_inv, fp2_mul_art, fp2_mul_nor (every branch of "
-    "the switch), fp3 mul/sqr/inv/mul_art, the quadratic levels fp4/fp8/fp12/fp16/fp18/fp48 (Karatsuba mul, complex sqr, inv, mul_art), the cubic "
+    "class A (formula in Model/Fpx.lean proved equal to the product / square / inverse of the quotient ring over an abstract commutative "
+    "ring, Lemmas/Fpx.lean): fp2 mul/sqr (basic and integ shapes, the qnr loops), fp2_inv, fp2_mul_art, fp2_mul_nor (every branch of the "
+    "switch), fp3 mul/sqr/inv/mul_art, the quadratic levels fp4/fp8/fp12/fp16/fp18/fp48 (Karatsuba mul, complex sqr, inv, mul_art), the cubic "
     "levels fp6/fp9/fp24/fp54 (Karatsuba mul, Chung-Hasan sqr, inv, mul_art), fp6/fp9_mul_dxs, fp12_mul_dxs (both twist types), fp12_sqr_cyc "
-    "(Granger-Scott), fp12_sqr_pck (Karabina), fp12_back_cyc, fpN_inv_cyc, fp8/fp16_sqr_cyc, the square-and-multiply loop of fpN_exp, "
-    "Montgomery's simultaneous inversion fpN_inv_sim",
-    "the lazy-reduction / unreduced / integrated variants (*_lazyr, *_unr, *_integ, fpN_*_low on double-precision accumulators) are modelled by "
-    "the same value-level formula as the basic variant; their carry handling (fp_addc_low/fp_subc_low corrections, fp_hlvd_low) is compared with "
-    "the specification on the presented lines only",
-    "class C (compared with the generic quotient-ring specification on the presented lines only, not modelled): fpN_frb (the precomputed "
-    "constant tables; the specification is the p-power map), fpN_exp_cyc / exp_cyc_sim / exp_cyc_sps / exp_dig (NAF and sparse loops), "
-    "fpN_conv_cyc, fpN_test_cyc, fpN_srt / fpN_is_sqr (judged by r*r = a and Euler's criterion), fp12_pck/upk/pck_max/upk_max, "
-    "fp2_pck/upk, fp2_mul_frb, fp8_mul_dxs, read_bin/write_bin/size_bin, *_dig helpers, the cyclotomic/compressed forms of fp18/fp24/fp48/fp54",
+    "(Granger-Scott), fp12_sqr_pck (Karabina), fp12_back_cyc (regular branch; the exceptional branch is finding C10-F8 with a counter-theorem "
+    "and a proved repair), fpN_inv_cyc, fp8/fp16_sqr_cyc, the square-and-multiply loop of fpN_exp, the signed-digit loop of fpN_exp_cyc, "
+    "Montgomery's simultaneous inversion; the fp12 model as stacked by the driver evaluates to ring operations (end-to-end theorem)",
     "tools/translate_fpx.py regenerates 45 straight-line functions of src/fpx (mul_basic / sqr_basic / inv / mul_art of every level above "
     "fp3, fp6/fp9_mul_dxs, fp8/fp16_sqr_cyc, fp12_sqr_cyc_basic, fp12_sqr_pck_basic, fp12_back_cyc) into Lean on every run; "
     "Lemmas/FpxGen.lean proves each generated definition equal to the model definition the theorems are about (rfl). The accepted C "
-    "fragment is listed in the translator; anything else is a translation failure and breaks the build of the proofs. Hand-transcribed "
+    "fragment is listed in the translator; anything else is a translation failure and breaks the build of the proofs; a value-preserving "
+    "rewrite that changes the data flow of a translated function breaks its rfl tie and is reported as a broken obligation. Hand-transcribed "
     "(tied by the correspondence run, column M, only): the fp2 and fp3 functions (low-level calls and loops over qnr / cnr), "
     "fp12_mul_dxs_basic (preprocessor and twist-type branches), fp2_mul_nor, and the loops",
+    "the lazy-reduction / unreduced / integrated variants (*_lazyr, *_unr, *_integ, fpN_*_low on double-precision accumulators) are modelled by "
+    "the same value-level formula as the basic variant; their carry handling (fp_addc_low/fp_subc_low corrections, fp_hlvd_low, the "
+    "operand ranges of fp2_norh_low) is compared with the specification on the presented lines only (finding C10-F7 lives there)",
+    "class C (compared with the generic quotient-ring specification on the presented lines only, not modelled): fpN_frb (the precomputed "
+    "constant tables; the specification is the p-power map), the table construction / recoding glue and the compressed-squaring, sparse, GLS "
+    "and simultaneous paths of fpN_exp_cyc*, fpN_exp_dig, fpN_conv_cyc, fpN_test_cyc, fpN_srt / fpN_is_sqr (judged by r*r = a and Euler's "
+    "criterion), fp12_pck/upk/pck_max/upk_max, fp2_pck/upk, fp2_mul_frb, fp8_mul_dxs, read_bin/write_bin/size_bin, *_dig helpers, the "
+    "cyclotomic / compressed forms of fp18/fp24/fp48/fp54 (thorough tier, specification only)",
+    "not exercised (listed, not silently dropped): fp3/fp4/fp8_mul_frb (internal helpers, covered through fpN_frb), the sparse multiplications "
+    "and exp_cyc_sim / exp_cyc_sps / exp_cyc_gls / pck / upk / back_cyc_sim above degree 12 (line-function shapes and subgroup orders of other "
+    "curve families), packed write_bin / read_bin beyond the pck/upk functions, fp2_pck/upk for qnr != -1 (the library restricts "
+    "compression to p = 3 mod 4), *_rand, *_print, *_copy, *_zero",
     "tower constants (p, qnr, cnr, fp2_field_get_qnr, xi = fp2_mul_nor(1), xi3 = fp3_mul_nor(1), twist type, group order) are read from the "
     "running library in the fpx_param line; the driver checks their defining properties (qnr / cnr non-residues, xi consistent with the modelled "
     "switch, each level a field where inversion / Frobenius / square roots are exercised)",
     "the specification evaluates the p-power map through X^p of each level's generator (computed from the definition by repeated multiplication) "
-    "and the ring-homomorphism property (theorem frobenius_expand); it is cross-checked against a^p computed directly on a sample of the lines",
+    "and the ring-homomorphism property (theorem spec_frobenius_expand); it is cross-checked against a^p computed directly on a sample of the "
+    "lines; membership in the cyclotomic subgroup is decided through that map and cross-checked against the algebraic relations IsCyc12 of "
+    "the theorems on every cyclotomic fp12 line (tag rel-ok)",
+    "operands of the cyclotomic subgroup, of order r, and with g2 = 0 are constructed by the generator (tools/props/c10.py: tower arithmetic, "
+    "root finding over fp2) and re-checked by the driver in the specification before any precondition is assumed",
 ]
 ASSUMPTIONS = [
     "ALLOC = AUTO: fpN_t are contiguous fp_t vectors (the harness passes flat buffers)",
